@@ -520,6 +520,24 @@ def cmp_atom(left, op, right, pol=True, expand: Optional[Callable] = None) -> tu
         t = _SWAP[t]
     ls = expand(left) if expand else norm(left)
     rs = expand(right) if expand else norm(right)
+    # emptiness tests: len(x) > 0, len(x) != 0, len(x) >= 1, 0 < len(x) ... are the truth of x (sized containers / bytes)
+    for a, b, swapped in ((left, right, False), (right, left, True)):
+        if isinstance(a, ast.Call) and isinstance(a.func, ast.Name) and a.func.id == "len" and len(a.args) == 1 and not a.keywords and isinstance(b, ast.Constant) and type(b.value) is int:
+            inner = expand(a.args[0]) if expand else norm(a.args[0])
+            k = b.value
+            tt = t
+            if swapped:  # canonical direction has only > and >=: `k > len(x)` / `k >= len(x)`
+                if tt is ast.Gt and k == 1:
+                    return (inner, not pol)  # 1 > len(x)
+                if tt is ast.GtE and k == 0:
+                    return (inner, not pol)  # 0 >= len(x)
+            else:
+                if (tt is ast.Gt and k == 0) or (tt is ast.GtE and k == 1):
+                    return (inner, pol)
+            if k == 0 and tt is ast.NotEq:
+                return (inner, pol)
+            if k == 0 and tt is ast.Eq:
+                return (inner, not pol)
     if t in (ast.Eq, ast.NotEq) and ls > rs:
         ls, rs = rs, ls
     return (f"{ls} {_SYM[t]} {rs}", pol)
